@@ -232,4 +232,15 @@ theorem reader_result_via_read_path (roles : List WDedup.Role) (hids : List Nat)
     simpa [List.getD, this] using hid
   · simp at hp
 
+/-- an accepted trace ends in a reachable state -/
+theorem replay_reachable {s0 s : St} (h : Reachable s0 s) (es : List Ev) (s' : St)
+    (hr : replay s es = some s') : Reachable s0 s' := by
+  induction es generalizing s with
+  | nil => simp [replay] at hr; subst hr; exact h
+  | cons e es ih =>
+    simp only [replay] at hr
+    split at hr
+    · rename_i s1 hs; exact ih (.step e h hs) hr
+    · simp at hr
+
 end Desync.WdqSys
